@@ -40,8 +40,10 @@ def tokens(pattern):
             i += 1
         elif ch.upper() in CODE and ch.isalpha():
             c = CODE[ch.upper()]
-            if i + 1 < len(pattern) and pattern[i + 1] == "*":
+            if i + 1 < len(pattern) and pattern[i + 1] in "*+":
                 lazy = i + 2 < len(pattern) and pattern[i + 2] == "?"
+                if pattern[i + 1] == "+":          # X+ = X X*  (same priority order)
+                    toks.append({"k": "lit", "c": c, "lazy": False})
                 toks.append({"k": "star", "c": c, "lazy": lazy})
                 i += 3 if lazy else 2
             else:
@@ -50,3 +52,12 @@ def tokens(pattern):
         else:
             raise ValueError("pattern syntax outside the model: %r in %r" % (ch, pattern))
     return toks
+
+
+def tokens_or_empty(pattern):
+    """tokens(), or [] when the pattern uses syntax outside the modelled language (the clauses that need the
+    tokens are then skipped or reduced to remarks; the clauses computed from sites and cuts still apply)"""
+    try:
+        return tokens(pattern)
+    except ValueError:
+        return []
